@@ -28,8 +28,11 @@ val mul : nat -> nat -> nat
 
 val sub : nat -> nat -> nat
 
+<<<<<<< HEAD
 val eqb : bool -> bool -> bool
 
+=======
+>>>>>>> main
 module Nat :
  sig
   val eqb : nat -> nat -> bool
@@ -212,6 +215,7 @@ module Z :
 
   val ltb : z -> z -> bool
 
+<<<<<<< HEAD
   val gtb : z -> z -> bool
 
   val eqb : z -> z -> bool
@@ -220,6 +224,10 @@ module Z :
 
   val min : z -> z -> z
 
+=======
+  val eqb : z -> z -> bool
+
+>>>>>>> main
   val abs : z -> z
 
   val to_nat : z -> nat
@@ -236,10 +244,13 @@ module Z :
 
   val div : z -> z -> z
 
+<<<<<<< HEAD
   val quotrem : z -> z -> z * z
 
   val quot : z -> z -> z
 
+=======
+>>>>>>> main
   val even : z -> bool
 
   val ggcd : z -> z -> z * (z * z)
@@ -277,8 +288,11 @@ val fPi : n
 
 val fW : n
 
+<<<<<<< HEAD
 val fErr : n
 
+=======
+>>>>>>> main
 val fR : n
 
 val fBit : n
@@ -287,12 +301,15 @@ val fComp : n
 
 val fZ : n
 
+<<<<<<< HEAD
 val fGen : n
 
 val fX : n
 
 val fSub : n
 
+=======
+>>>>>>> main
 val edge : n -> n -> n -> var
 
 val pi : n -> n -> n -> var
@@ -480,6 +497,7 @@ val aug_edges :
 
 type edge1 = n * n
 
+<<<<<<< HEAD
 val eqe : edge1 -> edge1 -> bool
 
 val memN : n -> n list -> bool
@@ -632,6 +650,9 @@ val certificate_ok :
 type edge2 = n * n
 
 type graph = edge2 list
+=======
+type graph = edge1 list
+>>>>>>> main
 
 val pop_out : graph -> n -> (n * graph) option
 
@@ -650,6 +671,7 @@ val reconstruct : graph -> n -> (graph * n list) option
 
 val round_half_even : q -> z
 
+<<<<<<< HEAD
 val residual_q : (edge2 * q) list -> graph
 
 val strip_st : n -> n -> n list -> n list
@@ -813,6 +835,13 @@ val corrected_value : mef_inst -> (edge0 -> q) -> edge0 -> q
 val corrected_graph :
   mef_inst -> n list -> edge0 list -> (edge0 -> q) -> n list * (edge0 * q
   option) list
+=======
+val residual_q : (edge1 * q) list -> graph
+
+val strip_st : n -> n -> n list -> n list
+
+val solution_walk : (edge1 * q) list -> n -> n -> (nat * n list) option
+>>>>>>> main
 
 type str = n list
 
@@ -968,6 +997,7 @@ val show_aux : nat -> n -> str -> str
 
 val show_N : n -> str
 
+<<<<<<< HEAD
 val sumL : ('a1 -> z) -> 'a1 list -> z
 
 val ind1 : bool -> z
@@ -1031,6 +1061,8 @@ val peel_inputs_ok :
 
 val explains_ok : (edge1 * z) list -> (n list * z) list -> bool
 
+=======
+>>>>>>> main
 val qabs : q -> q
 
 type status =
@@ -1075,7 +1107,11 @@ type result =
 | Crashed
 | Starved
 
+<<<<<<< HEAD
 type outcome0 = { so_res : result; used : nat; aux : nat; lbk : nat }
+=======
+type outcome = { so_res : result; used : nat; aux : nat; lbk : nat }
+>>>>>>> main
 
 val kloop :
   (nat -> bool) -> (nat -> bool) -> nat list -> raw list -> nat ->
@@ -1089,9 +1125,17 @@ val upper : bool -> nat -> nat
 
 val mgs_loop : bool -> nat list -> raw list -> nat -> result * nat
 
+<<<<<<< HEAD
 val mgs_range : nat -> nat -> nat list
 
 val mgs_solve : bool -> nat -> nat -> raw list -> outcome0
+=======
+val mgs_upper : nat -> nat -> nat
+
+val mgs_range : nat -> nat -> nat list
+
+val mgs_solve : bool -> nat -> nat -> raw list -> outcome
+>>>>>>> main
 
 type lbres =
 | LB of nat * nat
@@ -1107,6 +1151,7 @@ type fd_params = { lb0 : nat; upper_excl : bool; nedges : nat;
 
 val given_match : nat option -> nat -> bool
 
+<<<<<<< HEAD
 val fd_solve : bool -> bool -> fd_params -> raw list -> outcome0
 
 val mfd_solve : bool -> bool -> fd_params -> raw list -> outcome0
@@ -1116,6 +1161,17 @@ val mfdc_solve : bool -> fd_params -> raw list -> outcome0
 val mpc_solve : bool -> nat -> nat -> raw list -> outcome0
 
 val mpcc_solve : bool -> nat -> nat -> raw list -> outcome0
+=======
+val fd_solve : bool -> bool -> fd_params -> raw list -> outcome
+
+val mfd_solve : bool -> bool -> fd_params -> raw list -> outcome
+
+val mfdc_solve : bool -> fd_params -> raw list -> outcome
+
+val mpc_solve : bool -> nat -> nat -> raw list -> outcome
+
+val mpcc_solve : bool -> nat -> nat -> raw list -> outcome
+>>>>>>> main
 
 type npo_params = { kstart : nat; kmax : nat; first_feasible : bool;
                     delta_abs : q option; delta_rel : q option;
@@ -1134,7 +1190,11 @@ val npo_check : npo_params -> q option -> q -> npo_step
 val npo_loop :
   npo_params -> nat list -> raw list -> q option -> nat -> result * nat
 
+<<<<<<< HEAD
 val npo_solve : npo_params -> raw list -> outcome0
+=======
+val npo_solve : npo_params -> raw list -> outcome
+>>>>>>> main
 
 val of_list : bool list -> nat -> bool
 
@@ -1142,6 +1202,7 @@ val q_of_list : q list -> nat -> q
 
 val run_kmodel : bool -> bool -> kop list -> kout list * nat
 
+<<<<<<< HEAD
 val run_mgs : bool -> nat -> nat -> raw list -> outcome0
 
 val run_mfd :
@@ -1159,6 +1220,25 @@ val run_mpcc : bool -> nat -> nat -> raw list -> outcome0
 val run_npo :
   nat -> nat -> bool -> q option -> q option -> bool list -> q list -> bool
   list -> raw list -> outcome0
+=======
+val run_mgs : bool -> nat -> nat -> raw list -> outcome
+
+val run_mfd :
+  bool -> bool -> bool -> nat -> nat -> bool -> nat -> bool -> nat -> bool
+  list -> raw list -> outcome
+
+val run_mfdc :
+  bool -> bool -> nat -> nat -> bool -> nat -> bool -> nat -> bool list ->
+  raw list -> outcome
+
+val run_mpc : bool -> nat -> nat -> raw list -> outcome
+
+val run_mpcc : bool -> nat -> nat -> raw list -> outcome
+
+val run_npo :
+  nat -> nat -> bool -> q option -> q option -> bool list -> q list -> bool
+  list -> raw list -> outcome
+>>>>>>> main
 
 type wcol = { wlb : q; wub : q; wcost : q; wint : bool }
 
@@ -1172,7 +1252,11 @@ type op =
 | QueueLb of nat * q
 | Optimize
 
+<<<<<<< HEAD
 val upd0 : wcol list -> nat -> (wcol -> wcol) -> wcol list
+=======
+val upd : wcol list -> nat -> (wcol -> wcol) -> wcol list
+>>>>>>> main
 
 val fixc : q -> wcol -> wcol
 
